@@ -145,3 +145,116 @@ def run_rewrite(which, clause, budget=6000):
                 print('REPLAY: VIOLATION-CONFIRMED')
                 return
     print('REPLAY: not reproduced on %d chains' % n)
+
+
+# ---------------------------------------------------------------------------------------------------------------------
+# A-SWAP on the real item classes: exhaustive over a bounded family, exact rational arithmetic on the real matrices
+
+def _frac(a):
+    from fractions import Fraction
+    a = numpy.asarray(a, dtype=float)
+    if a.ndim == 1:
+        return [Fraction(float(x)) for x in a]
+    return [[Fraction(float(x)) for x in row] for row in a]
+
+
+def _affine(t):
+    return _frac(t.linear), _frac(t.offset)
+
+
+def _compose(A, B):
+    """(A after B): x -> LA (LB x + oB) + oA, exact"""
+    (LA, oA), (LB, oB) = A, B
+    n, k, m = len(LA), len(LB), (len(LB[0]) if LB else 0)
+    L = [[sum(LA[i][p] * LB[p][j] for p in range(k)) for j in range(m)] for i in range(n)]
+    o = [sum(LA[i][p] * oB[p] for p in range(k)) + oA[i] for i in range(n)]
+    return L, o
+
+
+def _defining_class(recv, method):
+    for c in type(recv).__mro__:
+        if method in c.__dict__:
+            return c.__name__
+    return None
+
+
+def swap_pairs():
+    """adjacent compatible pairs (a, b) of transform items: from all chains of the family, closed once under swapping"""
+    seen, out = set(), []
+
+    def add(a, b):
+        if a.fromdims == b.todims and (a, b) not in seen:
+            seen.add((a, b))
+            out.append((a, b))
+    for chain in chains(maxlen=3, nrandom=0):
+        for a, b in zip(chain, chain[1:]):
+            add(a, b)
+    from nutils import transform, types
+    for a, b in list(out):
+        if type(a).__name__ == 'TensorChild' and isinstance(b, transform.Updim):
+            add(a, transform.Updim(types.arraydata(b.linear), types.arraydata(b.offset), bool(b.isflipped)))  # a plain Updim with the same map
+    k = 0
+    while k < len(out) and len(out) < 20000:
+        a, b = out[k]
+        k += 1
+        rs = []
+        for f, x in ((b.swapdown, a), (a.swapup, b)):
+            try:
+                rs.append(f(x))
+            except Exception:
+                pass  # reported by check_swaps for the class that defines the method
+        for r in rs:
+            if r and isinstance(r, tuple) and len(r) == 2 and all(hasattr(t, 'todims') for t in r):
+                add(*r)
+                # neighbours a swapped item may meet next
+                for (c, d) in list(out[:2000]):
+                    if len(out) > 20000:
+                        break
+                    add(r[1], d) if r[1].fromdims == d.todims and d is not r[1] and k < 400 else None
+    return out
+
+
+def check_swaps(method, cls):
+    """A-SWAP for `cls.method` (the class that DEFINES the method) over the family; prints BOUNDED-RESULT {json}"""
+    import json
+    fails, cases, swapped = [], 0, 0
+    for a, b in swap_pairs():
+        recv, arg = (b, a) if method == 'swapdown' else (a, b)
+        if _defining_class(recv, method) != cls:
+            continue
+        cases += 1
+        desc = '%s.%s(%r) for chain (%r, %r)' % (type(recv).__name__, method, arg, a, b)
+        try:
+            r = getattr(recv, method)(arg)
+        except Exception as e:
+            fails.append(dict(clause='returns-none-or-pair', what=desc + ' raises %s: %s' % (type(e).__name__, e)))
+            continue
+        if r is None:
+            continue
+        if not (isinstance(r, tuple) and len(r) == 2):
+            fails.append(dict(clause='returns-none-or-pair', what=desc + ' returns %r' % (r,)))
+            continue
+        swapped += 1
+        s0, s1 = r
+        if not (s0.todims == a.todims and s1.fromdims == b.fromdims):
+            fails.append(dict(clause='same-outer-dimensions', what=desc + ' -> %r' % (r,)))
+            continue
+        if s0.fromdims != s1.todims:
+            fails.append(dict(clause='inner-dimensions-match', what=desc + ' -> %r' % (r,)))
+            continue
+        if not (recv.todims == recv.fromdims + 1 and arg.todims == arg.fromdims):
+            fails.append(dict(clause='only-updim-receiver-and-square-argument-swap', what=desc))
+        if not all(t.todims >= t.fromdims >= 0 for t in r):
+            fails.append(dict(clause='same-outer-dimensions', what=desc + ' -> %r (todims < fromdims)' % (r,)))
+        if _compose(_affine(s0), _affine(s1)) != _compose(_affine(a), _affine(b)):
+            fails.append(dict(clause='same-composed-map', what=desc + ' -> %r' % (r,)))
+        elif bool(getattr(s0, 'isflipped', False)) ^ bool(getattr(s1, 'isflipped', False)) != bool(getattr(a, 'isflipped', False)) ^ bool(getattr(b, 'isflipped', False)):
+            fails.append(dict(clause='same-orientation', what=desc + ' -> %r' % (r,)))
+    if swapped == 0:
+        cases = 0  # a family in which the method never swaps exercises nothing
+    print('%s.%s: %d adjacent pairs, %d swapped, %d failures' % (cls, method, cases, swapped, len(fails)))
+    for f in fails[:3]:
+        print('  ', f)
+    print('BOUNDED-RESULT ' + json.dumps(dict(cases=cases, swapped=swapped, failures=fails[:20])))
+    if fails:
+        print('REPLAY: VIOLATION-CONFIRMED')
